@@ -35,12 +35,8 @@ func (f *Foto) GetLunar() *Lunar {
 }
 
 func (f *Foto) GetYear() int {
-	sy := f.lunar.GetSolar().GetYear()
-	y := sy - DEAD_YEAR
-	if sy == f.lunar.GetYear() {
-		y++
-	}
-	return y
+	//佛历年以阴历年为准，与NewFoto(year)对应阴历年year+DEAD_YEAR-1互为逆运算
+	return f.lunar.GetYear() - DEAD_YEAR + 1
 }
 
 func (f *Foto) GetMonth() int {
